@@ -237,16 +237,41 @@ def gl(f, a, b, panels):
 
 
 def quad_energy(prof, E1, E2):
-    """∫ prof(E) dE over [E1,E2] (own unit), integrated in ln E"""
-    a, b = math.log(E1), math.log(E2)
-    dec = max(1.0, (b - a) / math.log(10))
-    return gl(lambda u: np.asarray(prof(np.exp(u)), dtype=np.float64) * np.exp(u), a, b, int(24 * dec))
+    """∫ prof(E) dE over [E1,E2] (own unit), integrated in ln E.  The bounds may sit on the boundary of the
+    energy support: E1 = 0 (integrable for hard spectra) and E2 = inf (soft spectra) are integrated decade by
+    decade away from the finite bound until a decade contributes nothing any more (nan if that never happens:
+    divergent integral)."""
+    f = lambda u: np.asarray(prof(np.exp(u)), dtype=np.float64) * np.exp(u)  # noqa
+    if E1 > 0 and np.isfinite(E2):
+        a, b = math.log(E1), math.log(E2)
+        dec = max(1.0, (b - a) / math.log(10))
+        return gl(f, a, b, int(24 * dec))
+    if not (E1 > 0) and not np.isfinite(E2):
+        raise ValueError('both bounds on the boundary')
+    total, x, step = 0.0, (E2 if not (E1 > 0) else E1), (0.1 if not (E1 > 0) else 10.0)
+    with np.errstate(all='ignore'):
+        for k in range(700):
+            y = x * step
+            if not (1e-300 < y < 1e300):
+                break
+            part = gl(f, math.log(min(x, y)), math.log(max(x, y)), 24)
+            total += part
+            x = y
+            if k > 2 and abs(part) <= 1e-16 * abs(total):
+                return total
+    return float('nan')
 
 
 def quad_time(prof, t1, t2):
     """∫ prof(t) dt over [t1,t2] (own unit); split at the support edges and around the centre"""
-    pts = {t1, t2}
     ts, te = float(prof.t_start), float(prof.t_stop)
+    if kind_of(prof) in ('box', 'gauss') and np.isfinite(ts) and np.isfinite(te):
+        # the profile is zero outside its support: an infinite bound is as good as one beyond the support
+        if t1 == -np.inf:
+            t1 = min(ts, t2) - 1.0
+        if t2 == np.inf:
+            t2 = max(te, t1) + 1.0
+    pts = {t1, t2}
     for x in (ts, te):
         if t1 < x < t2:
             pts.add(x)
@@ -277,7 +302,12 @@ def pl_noise(spec, xs, ulps=16):
         return 0.0
     E0, g = spec['p']['E0'], spec['p']['gamma']
     A = abs(E0 ** g / (1 - g))
-    return ulps * 1.2e-16 * A * sum(abs(x) ** (1 - g) for x in xs)
+    def term(x):
+        x = abs(x)
+        if x == 0 or x == float('inf'):      # 0^q, inf^q: exactly 0 or inf, no rounding noise from them
+            return 0.0
+        return x ** (1 - g)
+    return ulps * 1.2e-16 * A * sum(term(x) for x in xs)
 
 
 def near1(spec):
@@ -359,6 +389,10 @@ def o_units(ctx, case):
     if err:
         return err
     f12 = 1.0 if u1 == u2 else float(unit(u1).to(unit(u2)))
+    if spec['kind'] in E_KINDS:
+        xs = [x for x in xs if 0 < x < float('inf')]        # values at the edge of the support may be inf
+        if not xs:
+            return None
     x1 = np.array(xs, dtype=np.float64)
     x2 = x1 * f12
     v, err = _try(lambda: (np.asarray(prof(x1, unit=unit(u1)), dtype=np.float64), np.asarray(prof(x2, unit=unit(u2)), dtype=np.float64)),
@@ -1288,7 +1322,8 @@ def cmp_numeric(case, impl, model):
             return 'get_integral: implementation %r, closed-form model %r' % (impl, closed)
         # model closed form vs model Simpson sum: same cancellation allowance; the class 0 < |gamma-1| < 1e-8
         # (float cancellation of the closed form) is the open finding and is searched by `integral_quad`
-        if not near1(case['spec']) and not (_rel_ok(closed, quad, 1e-6) or abs(closed - quad) <= noise):
+        interior = 0 < case['x1'] < float('inf') and 0 < case['x2'] < float('inf')
+        if interior and not near1(case['spec']) and not (_rel_ok(closed, quad, 1e-6) or abs(closed - quad) <= noise):
             return 'closed-form model %r differs from the numerical integral of the model profile %r' % (closed, quad)
         return None
     m = b2f(model)
@@ -1802,6 +1837,8 @@ def gen_gamma(rng):
         return 1.0 + rng.choice([-1, 1]) * 10.0 ** (-rng.choice([2, 3, 4, 5, 6])), 'gamma~1(>=1e-6)'
     if r < 0.40:
         return 1.0 + rng.choice([-1, 1]) * 10.0 ** (-rng.choice([9, 10, 11, 12, 13, 14, 15])), 'gamma~1(<1e-8)'
+    if r < 0.47:
+        return rng.choice([0.0, -1.0, -0.5, 0.5]), 'gamma<=0.5 (hard / rising)'
     return round(rng.uniform(0.2, 4.0), rng.choice([1, 2, 12])), 'gamma generic'
 
 
@@ -2096,15 +2133,27 @@ def run(ctx):
         spec, cls = gen_energy_spec(rng, kind=rng.choice(['pl', 'pl', 'pl', 'cutoff', 'cutoff', 'logpar', 'logpar', 'function', 'function', 'unityE', 'epeak']))
         ctx.count('energy:' + cls)
         E1, E2 = gen_energy_interval(rng, spec)
+        # bounds on the boundary of the energy support: E1 = 0 for hard spectra, E2 = inf for soft ones, zero length
+        idx = spec['p'].get('gamma', spec['p'].get('g'))
+        rb = rng.random()
+        bclass = 'interior'
+        if spec['kind'] in ('pl', 'cutoff', 'function', 'unityE') and rb < 0.12 and (idx is None or idx < 0.95):
+            E1, bclass = 0.0, 'E1=0'
+        elif spec['kind'] == 'pl' and rb < 0.20 and idx > 1.05:
+            E2, bclass = float('inf'), 'E2=inf'
+        elif rb < 0.24:
+            E2, bclass = E1, 'E1=E2'
+        ctx.count('energy-bounds:' + bclass)
         au = rng.choice([None, None] + E_UNITS)
         f = ufac(au, spec['unit'])
         a1, a2 = (E1, E2) if f is None else (E1 / f, E2 / f)
         ctx.count('arg_unit:%s->%s' % (au, spec['unit']))
         if spec['kind'] not in ('function', 'unityE', 'epeak'):
             numeric.append({'type': 'numeric', 'op': 'call', 'spec': spec, 'x': a1, 'arg_unit': au})
-            numeric.append({'type': 'numeric', 'op': 'int', 'spec': spec, 'x1': a1, 'x2': a2, 'arg_unit': au})
+            if bclass in ('interior', 'E1=E2') or spec['kind'] == 'pl':      # (the model has no closed form for the others)
+                numeric.append({'type': 'numeric', 'op': 'int', 'spec': spec, 'x1': a1, 'x2': a2, 'arg_unit': au})
         oracle_cases.append(('integral_quad', dict({'spec': spec, 'x1': a1, 'x2': a2, 'arg_unit': au}, **({'rtol': 1e-2} if spec['kind'] == 'epeak' else {}))))
-        mid = math.sqrt(E1 * E2)
+        mid = math.sqrt(E1 * E2) if bclass in ('interior', 'E1=E2') else (E2 / 3.0 if bclass == 'E1=0' else E1 * 10.0)
         oracle_cases.append(('additive', {'spec': spec, 'a': E1, 'b': mid, 'c': E2}))
         u1, u2 = rng.choice(E_UNITS), rng.choice(E_UNITS)
         g1 = float(unit(spec['unit']).to(unit(u1)))
@@ -2118,6 +2167,18 @@ def run(ctx):
         ctx.count('energy:gamma-grid')
         numeric.append({'type': 'numeric', 'op': 'int', 'spec': spec, 'x1': E1, 'x2': E2, 'arg_unit': None})
         oracle_cases.append(('integral_quad', {'spec': spec, 'x1': E1, 'x2': E2, 'arg_unit': None}))
+
+    # the boundary of the energy support in every run: E1 = 0 for gamma < 1, E2 = inf for gamma > 1, divergent classes
+    for g_, b1, b2 in ((0.5, 0.0, 1e3), (0.0, 0.0, 50.0), (-1.0, 0.0, 7.5), (0.9, 0.0, 1e5), (2.0, 10.0, float('inf')),
+                       (3.5, 1e3, float('inf')), (2.0, 0.0, 10.0), (0.5, 1.0, float('inf')), (1.0, 5.0, 5.0)):
+        spec = {'kind': 'pl', 'p': {'E0': float(lg(rng, 0, 3)), 'gamma': g_}, 'unit': rng.choice(E_UNITS)}
+        ctx.count('energy:boundary-grid')
+        numeric.append({'type': 'numeric', 'op': 'int', 'spec': spec, 'x1': b1, 'x2': b2, 'arg_unit': None})
+        convergent = (b1 > 0 or g_ < 1) and (np.isfinite(b2) or g_ > 1)
+        if convergent:
+            oracle_cases.append(('integral_quad', {'spec': spec, 'x1': b1, 'x2': b2, 'arg_unit': None}))
+            if b1 != b2:
+                oracle_cases.append(('additive', {'spec': spec, 'a': b1, 'b': (b2 / 3 if np.isfinite(b2) else b1 * 10), 'c': b2}))
 
     # ---- time profiles
     for _ in range(ctx.n(60, 1200)):
@@ -2137,6 +2198,18 @@ def run(ctx):
                 time_cases.append({'type': 'time', 'op': 'cdf', 'spec': spec, 'x': cvt(pts[0] if i % 2 else pts[-1]), 'arg_unit': au})
             oracle_cases.append(('integral_quad', {'spec': spec, 'x1': cvt(pts[i]), 'x2': cvt(pts[j]), 'arg_unit': au}))
             ctx.count('interval:' + _interval_class(spec, pts[i], pts[j]))
+        if spec['kind'] != 'unityT':
+            # the boundary of the time axis: integration bounds and evaluation points at -inf / +inf, zero-length interval
+            ninf, pinf = float('-inf'), float('inf')
+            lo_, hi_ = rng.choice([ninf, pts[0], pts[len(pts) // 2]]), rng.choice([pinf, pts[-1], pts[len(pts) // 2]])
+            for x1_, x2_ in ((ninf, hi_), (lo_, pinf), (ninf, pinf), (pts[len(pts) // 2], pts[len(pts) // 2])):
+                time_cases.append({'type': 'time', 'op': 'int', 'spec': spec, 'x1': x1_, 'x2': x2_, 'arg_unit': au})
+                oracle_cases.append(('integral_quad', {'spec': spec, 'x1': x1_, 'x2': x2_, 'arg_unit': au}))
+            oracle_cases.append(('additive', {'spec': spec, 'a': ninf, 'b': pts[len(pts) // 2], 'c': pinf}))
+            for x_ in (ninf, pinf):
+                time_cases.append({'type': 'time', 'op': 'call', 'spec': spec, 'x': x_, 'arg_unit': au})
+                time_cases.append({'type': 'time', 'op': 'cdf', 'spec': spec, 'x': x_, 'arg_unit': au})
+            ctx.count('time-bounds:infinite')
         i, j, k = sorted(rng.sample(range(len(pts)), 3))
         oracle_cases.append(('additive', {'spec': spec, 'a': pts[i], 'b': pts[j], 'c': pts[k]}))
         u1, u2 = rng.choice(T_UNITS), rng.choice(T_UNITS)
